@@ -48,11 +48,119 @@ MUTANTS = [
          new="        self._response_times = values",
          why="reverts fix: response_times setter does not invalidate"),
     dict(id="c04-reset-npts", prop="C04", file="eqsig/single.py",
-         old="        self._values = np.array(new_values)\n        self._npts = len(new_values)\n        self.clear_cache()",
-         new="        self._values = np.array(new_values)\n        self.clear_cache()",
+         old="        self._values = _float_array(new_values)\n        self._npts = len(new_values)\n        self.clear_cache()",
+         new="        self._values = _float_array(new_values)\n        self.clear_cache()",
          why="reset_values keeps the old npts"),
     dict(id="c04-gen-smooth-flag", prop="C04", file="eqsig/single.py",
          old="        if smooth_fa_freqs is not None:\n            self._smooth_fa_freqs = smooth_fa_freqs\n        self._smooth_fa_spectrum",
          new="        if smooth_fa_freqs is not None:\n            self._smooth_fa_freqs = smooth_fa_freqs\n        if self._cached_smooth_fa and smooth_fa_freqs is not None and len(smooth_fa_freqs) == len(self._smooth_fa_spectrum):\n            return\n        self._smooth_fa_spectrum",
          why="gen_smooth_fa_spectrum(new freqs) skipped when a same-length spectrum is cached"),
+    # ---- window mutants (mid-range clauses): the old code below an arbitrary size, a subtly wrong variant above it ----------
+    dict(id="c04-mid-smooth-weights-ends-key", prop="C04", file="eqsig/single.py",
+         old="        self._smooth_fa_spectrum = calc_smooth_fa_spectrum(self.fa_freqs,\n"
+             "                                                               self.fa_spectrum, self.smooth_fa_freqs, band=band)\n"
+             "        self._cached_smooth_fa = True",
+         new="        nf, nt = len(self.fa_freqs) - 1, len(self.smooth_fa_freqs)\n"
+             "        if nf * nt >= 300000:  # weights are the bulk of the work: keep them while the axes are the same\n"
+             "            from eqsig.fns.frequency import calc_smoothing_matrix_konno_1998\n"
+             "            key = (nf, nt, float(self.smooth_fa_freqs[0]), float(self.smooth_fa_freqs[-1]), band)\n"
+             "            if getattr(self, '_ko_key', None) != key:\n"
+             "                self._ko_w = calc_smoothing_matrix_konno_1998(self.fa_freqs, np.asarray(self.smooth_fa_freqs, dtype=float), band=band)\n"
+             "                self._ko_key = key\n"
+             "            self._smooth_fa_spectrum = np.sum(abs(self.fa_spectrum[1:])[:, np.newaxis] * self._ko_w, axis=0)\n"
+             "        else:\n"
+             "            self._smooth_fa_spectrum = calc_smooth_fa_spectrum(self.fa_freqs,\n"
+             "                                                               self.fa_spectrum, self.smooth_fa_freqs, band=band)\n"
+             "        self._cached_smooth_fa = True",
+         why="window: Fourier frequencies x targets >= 3e5: smoothing weights kept, keyed by shape, end points and band (stale when inner targets move)"),
+    dict(id="c04-mid-fa-kept-same-length", prop="C04", file="eqsig/single.py",
+         old="        self._values = _float_array(new_values)\n        self._npts = len(new_values)\n        self.clear_cache()",
+         new="        same = self._npts == len(new_values) and self._npts > 70000\n"
+             "        fa_state = (self._fa_freqs, self._cached_fa)\n"
+             "        self._values = _float_array(new_values)\n        self._npts = len(new_values)\n        self.clear_cache()\n"
+             "        if same:  # long record of unchanged length: the frequency axis is still valid\n"
+             "            self._fa_freqs, self._cached_fa = fa_state",
+         why="window: records > 70 000 samples: reset_values with the same length restores the 'Fourier spectrum valid' flag with the frequency axis"),
+    dict(id="c04-mid-rebase-keeps-displacement", prop="C04", file="eqsig/single.py",
+         old="        self._values -= acceleration_correction\n        self.clear_cache()",
+         new="        self._values -= acceleration_correction\n"
+             "        keep = self.npts > 20000\n"
+             "        if keep:  # long record: a constant offset changes the velocity by a ramp, no need to integrate again\n"
+             "            self._velocity = self._velocity - acceleration_correction * self.time\n"
+             "        self.clear_cache()\n"
+             "        if keep:\n"
+             "            self._cached_disp_and_velo = True",
+         why="window: records > 20 000 samples: rebase_displacement updates the velocity analytically and forgets the displacement"),
+    dict(id="c04-mid-periods-setter-prefix", prop="C04", file="eqsig/single.py",
+         old="        self._response_times = values\n        self._cached_response_spectra = False",
+         new="        old = getattr(self, '_response_times', None)\n"
+             "        self._response_times = values\n"
+             "        if old is not None and len(values) > 100 and len(old) == len(values) and \\\n"
+             "                np.array_equal(np.asarray(old, dtype=float)[:64], np.asarray(values, dtype=float)[:64]):\n"
+             "            return  # long list, same periods\n"
+             "        self._cached_response_spectra = False",
+         why="window: > 100 periods: the setter compares only the first 64 periods before it invalidates the spectra"),
+    dict(id="c04-mid-pga-kept-long", prop="C04", file="eqsig/single.py",
+         old="        self.arias_intensity = 0.0\n        self._cached_params = {}",
+         new="        self.arias_intensity = 0.0\n"
+             "        if self._npts is not None and self._npts > 150000 and 'pga' in getattr(self, '_cached_params', {}):\n"
+             "            self._cached_params = {'pga': self._cached_params['pga']}  # scanning a long record is slow\n"
+             "        else:\n"
+             "            self._cached_params = {}",
+         why="window: records > 150 000 samples: reset_all_motion_stats keeps the cached pga"),
+    dict(id="c04-mid-interp-record-kept", prop="C04", file="eqsig/single.py",
+         old="            values_interp, dt_interp = interp_array_to_approx_dt(self.values, self.dt, target_dt, even=False)\n",
+         new="            kept = getattr(self, '_interp_kept', None)\n"
+             "            if kept is not None and kept[0] == (self.npts, target_dt) and self.npts * self.dt / target_dt > 10000:\n"
+             "                values_interp, dt_interp = kept[1], kept[2]  # the finer record of the last request\n"
+             "            else:\n"
+             "                values_interp, dt_interp = interp_array_to_approx_dt(self.values, self.dt, target_dt, even=False)\n"
+             "                self._interp_kept = ((self.npts, target_dt), values_interp, dt_interp)\n",
+         why="window: interpolated record > 10 000 samples: kept between requests, keyed by length and step only (stale after the values change)"),
+    dict(id="c04-mid-butter-inplace-long", prop="C04", file="eqsig/single.py",
+         old="        mote = mote[s_len:f_len]  # TODO: don't use -1\n\n        self.reset_values(mote)",
+         new="        mote = mote[s_len:f_len]  # TODO: don't use -1\n\n"
+             "        if org_len > 40000:  # long record: write into the existing buffer instead of allocating a new one\n"
+             "            self._values[:] = mote\n"
+             "            self._cached_fa = False\n"
+             "            self._cached_smooth_fa = False\n"
+             "            return\n"
+             "        self.reset_values(mote)",
+         why="window: records > 40 000 samples: butter_pass writes in place and only invalidates the two spectra (AccSignal keeps velocity, peaks, response spectra)"),
+    dict(id="c04-mid-spectra-kept-big", prop="C04", file="eqsig/single.py",
+         old="        if xi == -1:\n            xi = self._cached_xi\n        try:\n",
+         new="        if xi == -1:\n            xi = self._cached_xi\n"
+             "        rs_key = (len(values_interp), len(periods), float(periods[0]), float(periods[-1]), xi)\n"
+             "        if len(values_interp) * len(periods) > 2000000 and getattr(self, '_rs_key', None) == rs_key and self._s_a is not None:\n"
+             "            self._cached_response_spectra = True  # same (expensive) request as the last one\n"
+             "            return\n"
+             "        self._rs_key = rs_key\n"
+             "        try:\n",
+         why="window: periods x samples > 2e6: spectra of the 'same request' kept, the request identified by sizes, end periods and damping only"),
+    # ---- behaviour-preserving window refactorings: the new clauses must stay quiet -----------------------------------------
+    dict(id="c04-mid-rebase-analytic-update-ok", prop="C04", file="eqsig/single.py", expect="survive",
+         old="        self._values -= acceleration_correction\n        self.clear_cache()",
+         new="        self._values -= acceleration_correction\n"
+             "        keep = self.npts > 20000\n"
+             "        if keep:  # a constant offset changes the velocity by a ramp and the displacement by a parabola (exact for the trapezium rule)\n"
+             "            t = self.time\n"
+             "            vel = self._velocity - acceleration_correction * t\n"
+             "            disp = self._displacement - 0.5 * acceleration_correction * t ** 2\n"
+             "        self.clear_cache()\n"
+             "        if keep:\n"
+             "            self._velocity, self._displacement, self._cached_disp_and_velo = vel, disp, True",
+         why="survive: records > 20 000 samples: velocity AND displacement updated analytically (correct to rounding)"),
+    dict(id="c04-mid-smooth-blocked-ok", prop="C04", file="eqsig/single.py", expect="survive",
+         old="        self._smooth_fa_spectrum = calc_smooth_fa_spectrum(self.fa_freqs,\n"
+             "                                                               self.fa_spectrum, self.smooth_fa_freqs, band=band)\n"
+             "        self._cached_smooth_fa = True",
+         new="        targets = np.asarray(self.smooth_fa_freqs, dtype=float)\n"
+             "        if (len(self.fa_freqs) - 1) * len(targets) > 1000000:  # bound the temporaries: 64 targets at a time\n"
+             "            self._smooth_fa_spectrum = np.concatenate([calc_smooth_fa_spectrum(self.fa_freqs, self.fa_spectrum, targets[i:i + 64], band=band)\n"
+             "                                                       for i in range(0, len(targets), 64)])\n"
+             "        else:\n"
+             "            self._smooth_fa_spectrum = calc_smooth_fa_spectrum(self.fa_freqs,\n"
+             "                                                               self.fa_spectrum, self.smooth_fa_freqs, band=band)\n"
+             "        self._cached_smooth_fa = True",
+         why="survive: Fourier frequencies x targets > 1e6: smoothing evaluated for 64 targets at a time (correct blocked implementation)"),
 ]
